@@ -20,7 +20,7 @@ use std::sync::{Arc, Mutex};
 pub fn def() -> PropDef {
     PropDef {
         id: "C16",
-        rule: "1 thread x every script of 3..4 steps (thorough 5); 2 threads x scripts of <=2 steps (thorough: 3 steps against <=2) and 3 threads x scripts of <=2 steps over {fail with one of nine messages through seven table entries (raw_name_from_str and rename fail in two ways each; set_raw_name, delete and set_name fail inside an iteration callback), succeed (add_to_answer; in the single-thread scripts also rename, delete and set_raw_name inside a callback, raw_name_from_str), read description through the thread's last CErr*, look again at the description text retrieved earlier}; every interleaving of the steps (step-level points, unbounded) and, with the library's yield points around the error store enabled, every interleaving with at most 2 preemptions; the same step-level exploration with all threads working on ONE packet handed from thread to thread; each execution runs on real OS threads under a baton scheduler and is compared with the per-thread expectation; distinct classes = (threads, script shapes, own or shared packet, whether a foreign failure lies between a failure and its read)",
+        rule: "1 thread x every script of 3..4 steps (thorough 5); 2 threads x scripts of <=2 steps (thorough: 3 steps against <=2) and 3 threads x scripts of <=2 steps over {fail with one of nine messages through seven table entries (raw_name_from_str and rename fail in two ways each; set_raw_name, delete and set_name fail inside an iteration callback), succeed (add_to_answer; in the single-thread scripts also rename, delete and set_raw_name inside a callback, raw_name_from_str), read description through the thread's last CErr*, look again at the description text retrieved earlier}; every interleaving of the steps (step-level points, unbounded) and, with the library's yield points around the error store enabled, every interleaving with at most 2 preemptions; the same with every call handed a stale handle variable, and with all threads working on ONE packet handed from thread to thread; each execution runs on real OS threads under a baton scheduler and is compared with the per-thread expectation; a crowd of N in {1..600} threads failing and exiting while one thread keeps its description; distinct classes = (threads, script shapes, own or shared packet, whether a foreign failure lies between a failure and its read)",
         run,
         replay,
         bounds: |t| json!({"threads": [2, 3], "steps_2_threads": t.pick(2, 3), "steps_3_threads": 2, "preemption_bound_with_library_points": t.pick(2, 3), "max_executions_per_tuple": 20000}),
@@ -30,7 +30,7 @@ pub fn def() -> PropDef {
         nshards: 16,
         post: |rep, _| {
             let mut v = vec![];
-            for need in ["threads=1", "threads=2", "threads=3", "foreign_between=1", "libpoints=1", "shared=1 foreign_between=1"] {
+            for need in ["crowd of >=100", "stale=1", "threads=1", "threads=2", "threads=3", "foreign_between=1", "libpoints=1", "shared=1 stale=0 foreign_between=1", "stale=1 foreign_between=1"] {
                 if !rep.classes.keys().any(|k| k.contains(need)) {
                     v.push(format!("no explored execution with {}", need));
                 }
@@ -88,7 +88,14 @@ struct SharedPacket(std::cell::UnsafeCell<ParsedPacket>);
 unsafe impl Sync for SharedPacket {}
 unsafe impl Send for SharedPacket {}
 
+/// the handle most recently handed out to ANY thread of the execution (stale-handle mode)
+static LAST_HANDLE: std::sync::atomic::AtomicPtr<CErr> = std::sync::atomic::AtomicPtr::new(std::ptr::null_mut());
+
 struct ThreadCtx {
+    /// every call's handle variable starts out holding the handle most recently handed to any thread (as a
+    /// context structure that migrates between worker threads would), instead of NULL: it is an out-parameter,
+    /// what it held before the call must not matter
+    stale: bool,
     _own: Option<Box<ParsedPacket>>,
     pp: *mut ParsedPacket,
     last_err: *const CErr,
@@ -101,7 +108,8 @@ fn do_step(t: &FnTable, c: &mut ThreadCtx, s: Step) -> Result<String, String> {
     unsafe {
         match s {
             Step::Fail(k) => {
-                let mut err: *const CErr = std::ptr::null();
+                let mut err: *const CErr = if c.stale { LAST_HANDLE.load(std::sync::atomic::Ordering::SeqCst) } else { std::ptr::null() };
+                let handed_in = err;
                 let rc = match k {
                     0 => {
                         let txt = CString::new("this is not a record").unwrap();
@@ -153,7 +161,7 @@ fn do_step(t: &FnTable, c: &mut ThreadCtx, s: Step) -> Result<String, String> {
                         let mut e0: *const CErr = std::ptr::null();
                         let txt = CString::new("it. 1 IN A 9.9.9.8").unwrap();
                         let _ = (t.add_to_answer)(&mut *c.pp, &mut e0, txt.as_ptr());
-                        let mut cbs = Cb { t, k, err: std::ptr::null(), rc: 0 };
+                        let mut cbs = Cb { t, k, err: handed_in, rc: 0 };
                         (t.iter_answer)(&mut *c.pp, cb, &mut cbs as *mut Cb as *mut libc::c_void);
                         err = cbs.err;
                         cbs.rc
@@ -171,6 +179,7 @@ fn do_step(t: &FnTable, c: &mut ThreadCtx, s: Step) -> Result<String, String> {
                 if rc != -1 || err.is_null() {
                     return Err(format!("failing call {} returned {} / err={:?}", k, rc, err));
                 }
+                LAST_HANDLE.store(err as *mut CErr, std::sync::atomic::Ordering::SeqCst);
                 c.last_err = err;
                 let d = (t.error_description)(err);
                 c.last_desc = d;
@@ -262,7 +271,7 @@ fn do_step(t: &FnTable, c: &mut ThreadCtx, s: Step) -> Result<String, String> {
 fn expected_messages() -> Vec<String> {
     let t = fn_table();
     let mut own = Box::new(crate::subj::parse(&base_packet()).unwrap());
-    let mut c = ThreadCtx { pp: &mut *own, _own: Some(own), last_err: std::ptr::null(), last_desc: std::ptr::null(), last_msg: None };
+    let mut c = ThreadCtx { stale: false, pp: &mut *own, _own: Some(own), last_err: std::ptr::null(), last_desc: std::ptr::null(), last_msg: None };
     (0..9u8)
         .map(|k| {
             do_step(&t, &mut c, Step::Fail(k)).unwrap();
@@ -279,7 +288,8 @@ struct Obs {
 }
 
 /// One execution of the scripts under a schedule. Returns (exec, observations in global order).
-fn execute(scripts: &[Vec<Step>], libpoints: bool, shared: bool, prefix: &[usize]) -> (Exec, Vec<Obs>) {
+fn execute(scripts: &[Vec<Step>], libpoints: bool, shared: bool, stale: bool, prefix: &[usize]) -> (Exec, Vec<Obs>) {
+    LAST_HANDLE.store(std::ptr::null_mut(), std::sync::atomic::Ordering::SeqCst);
     let log: Arc<Mutex<Vec<Obs>>> = Arc::new(Mutex::new(vec![]));
     let common = Arc::new(SharedPacket(std::cell::UnsafeCell::new(crate::subj::parse(&base_packet()).unwrap())));
     let mut bodies: Vec<Body> = vec![];
@@ -291,7 +301,7 @@ fn execute(scripts: &[Vec<Step>], libpoints: bool, shared: bool, prefix: &[usize
             let t = fn_table();
             let mut own = Box::new(crate::subj::parse(&base_packet()).unwrap());
             let pp: *mut ParsedPacket = if shared { common.0.get() } else { &mut *own };
-            let mut c = ThreadCtx { pp, _own: Some(own), last_err: std::ptr::null(), last_desc: std::ptr::null(), last_msg: None };
+            let mut c = ThreadCtx { stale, pp, _own: Some(own), last_err: std::ptr::null(), last_desc: std::ptr::null(), last_msg: None };
             if libpoints {
                 let h2 = h.clone();
                 verif_hooks::set_callback(Some(Box::new(move |kind| {
@@ -391,6 +401,10 @@ fn tuple_str(scripts: &[Vec<Step>]) -> String {
 }
 
 fn explore_tuple(ctx: &mut Ctx, rep: &mut Report, scripts: &[Vec<Step>], libpoints: bool, shared: bool, bound: usize, exp: &[String]) {
+    explore_tuple_m(ctx, rep, scripts, libpoints, shared, false, bound, exp)
+}
+
+fn explore_tuple_m(ctx: &mut Ctx, rep: &mut Report, scripts: &[Vec<Step>], libpoints: bool, shared: bool, stale: bool, bound: usize, exp: &[String]) {
     let mut ex = Explorer { bound, max_execs: 20000, execs: 0, capped: false };
     let sc: Vec<Vec<Step>> = scripts.to_vec();
     let obs_cell: std::cell::RefCell<Vec<Obs>> = std::cell::RefCell::new(vec![]);
@@ -405,9 +419,9 @@ fn explore_tuple(ctx: &mut Ctx, rep: &mut Report, scripts: &[Vec<Step>], libpoin
             break;
         }
         if ctx.journaling() {
-            ctx.journal(|| json!({"scripts": tuple_str(&sc), "libpoints": libpoints, "shared": shared, "schedule": prefix}));
+            ctx.journal(|| json!({"scripts": tuple_str(&sc), "libpoints": libpoints, "shared": shared, "stale": stale, "schedule": prefix}));
         }
-        let (x, obs) = execute(&sc, libpoints, shared, &prefix);
+        let (x, obs) = execute(&sc, libpoints, shared, stale, &prefix);
         ex.execs += 1;
         rep.transitions += x.points.len() as u64;
         *obs_cell.borrow_mut() = obs.clone();
@@ -457,9 +471,9 @@ fn explore_tuple(ctx: &mut Ctx, rep: &mut Report, scripts: &[Vec<Step>], libpoin
         rep.cap(format!("execution cap or time budget reached for a script tuple (e.g. {})", tuple_str(&sc)));
     }
     let shape: String = sc.iter().map(|s| s.len().to_string()).collect::<Vec<_>>().join("+");
-    rep.class(&format!("threads={} steps={} libpoints={} shared={} foreign_between={} orders={}", sc.len(), shape, libpoints as u8, shared as u8, foreign as u8, outcomes.len().min(50)));
+    rep.class(&format!("threads={} steps={} libpoints={} shared={} stale={} foreign_between={} orders={}", sc.len(), shape, libpoints as u8, shared as u8, stale as u8, foreign as u8, outcomes.len().min(50)));
     if let Some((sig, what, schedule)) = violation {
-        rep.violation(&sig, format!("scripts {}: {}", tuple_str(&sc), what), json!({"scripts": tuple_str(&sc), "libpoints": libpoints, "shared": shared, "schedule": schedule}));
+        rep.violation(&sig, format!("scripts {}: {}", tuple_str(&sc), what), json!({"scripts": tuple_str(&sc), "libpoints": libpoints, "shared": shared, "stale": stale, "schedule": schedule}));
     } else if rep.samples.len() < MAX_SAMPLES && foreign {
         rep.sample(|| json!({"scripts": tuple_str(&sc), "libpoints": libpoints, "executions": ex.execs, "observation_order": obs_cell.borrow().iter().map(|o| format!("t{}:{}", o.thread, o.text)).collect::<Vec<_>>()}));
     }
@@ -506,6 +520,37 @@ fn run(ctx: &mut Ctx, rep: &mut Report) {
                 }
                 explore_tuple(ctx, rep, &[a.clone(), b.clone(), c.clone()], false, false, 99, &exp);
             }
+        }
+    }
+    // stale handles: every call is handed a handle variable that still holds the handle most recently given to
+    // any thread; 2 threads, scripts of up to 2 steps without the callback failures
+    {
+        let s_st: Vec<Vec<Step>> = scripts_upto(2).into_iter().filter(|s| !s.iter().any(|x| matches!(x, Step::Fail(k) if *k >= 6))).collect();
+        for a in &s_st {
+            for b in &s_st {
+                gi += 1;
+                if !ctx.mine(gi) || ctx.timed_out() {
+                    continue;
+                }
+                explore_tuple_m(ctx, rep, &[a.clone(), b.clone()], false, false, true, 99, &exp);
+            }
+        }
+    }
+    // a crowd: one thread fails and keeps its description while N other threads start, fail, check their own
+    // description and exit one after the other; then it looks again (one deterministic execution per N)
+    for (i, n) in [1usize, 2, 15, 16, 17, 63, 64, 65, 127, 128, 129, 200, 255, 256, 257, 300, 600].into_iter().enumerate() {
+        if !ctx.mine(i as u64) || ctx.timed_out() {
+            continue;
+        }
+        if ctx.journaling() {
+            ctx.journal(|| json!({"kind": "crowd", "n": n}));
+        }
+        rep.transitions += n as u64 + 3;
+        rep.states += 1;
+        rep.evaluations += 1;
+        match crowd(n, &exp) {
+            Ok(()) => rep.class(&format!("crowd of {} exiting threads", if n < 100 { "<100" } else { ">=100" })),
+            Err(e) => rep.violation("foreign_description", format!("crowd of {}: {}", n, e), json!({"kind": "crowd", "n": n})),
         }
     }
     // one thread, longer scripts: a description must survive this thread's own later SUCCESSFUL calls and
@@ -562,15 +607,72 @@ fn run(ctx: &mut Ctx, rep: &mut Report) {
     }
 }
 
+/// Thread A fails (message 2) and keeps handle and text pointer; `n` threads then run one after the other, each
+/// failing with message 4, checking its own description, and exiting; after each of them A's description is read
+/// again through the handle, and at the end also through the text pointer it kept.
+fn crowd(n: usize, exp: &[String]) -> Result<(), String> {
+    use std::sync::mpsc::channel;
+    let (to_a, a_rx) = channel::<()>();
+    let (a_tx, from_a) = channel::<Result<(), String>>();
+    let exp_a = exp[2].clone();
+    let exp_b = exp[4].clone();
+    let a = std::thread::spawn(move || {
+        let t = fn_table();
+        let mut own = Box::new(crate::subj::parse(&base_packet()).unwrap());
+        let mut c = ThreadCtx { stale: false, pp: &mut *own, _own: Some(own), last_err: std::ptr::null(), last_desc: std::ptr::null(), last_msg: None };
+        let first = do_step(&t, &mut c, Step::Fail(2)).and_then(|o| if o == format!("fail2={}", exp_a) { Ok(()) } else { Err(format!("own failure described as {:?}", o)) });
+        let _ = a_tx.send(first);
+        while a_rx.recv().is_ok() {
+            let r = do_step(&t, &mut c, Step::Read).and_then(|o| if o == format!("read={}", exp_a) { Ok(()) } else { Err(format!("the waiting thread reads {:?}, its own most recent failure was {:?}", o, exp_a)) });
+            let r = r.and_then(|_| do_step(&t, &mut c, Step::Peek)).and_then(|o| if o == format!("read={}", exp_a) { Ok(()) } else { Err(format!("the text the waiting thread kept now reads {:?}, it was {:?}", o, exp_a)) });
+            if a_tx.send(r).is_err() {
+                break;
+            }
+        }
+    });
+    let mut verdict = from_a.recv().map_err(|e| e.to_string())?;
+    for k in 0..n {
+        if verdict.is_err() {
+            break;
+        }
+        let exp_b = exp_b.clone();
+        let r = std::thread::spawn(move || {
+            let t = fn_table();
+            let mut own = Box::new(crate::subj::parse(&base_packet()).unwrap());
+            let mut c = ThreadCtx { stale: false, pp: &mut *own, _own: Some(own), last_err: std::ptr::null(), last_desc: std::ptr::null(), last_msg: None };
+            do_step(&t, &mut c, Step::Fail(4)).and_then(|o| if o == format!("fail4={}", exp_b) { Ok(()) } else { Err(format!("crowd thread's failure described as {:?}", o)) })
+        })
+        .join()
+        .unwrap_or_else(|_| Err("crowd thread panicked".into()));
+        if let Err(e) = r {
+            verdict = Err(format!("after {} crowd threads: {}", k, e));
+            break;
+        }
+        // look again after the first few, around powers of two, and at the end
+        if k < 3 || (k + 2).is_power_of_two() || (k + 1).is_power_of_two() || k.is_power_of_two() || k + 1 == n {
+            to_a.send(()).map_err(|e| e.to_string())?;
+            verdict = from_a.recv().map_err(|e| e.to_string())?.map_err(|e| format!("after {} crowd threads: {}", k + 1, e));
+        }
+    }
+    drop(to_a);
+    let _ = a.join();
+    verdict
+}
+
 fn replay(case: &Value) -> Result<String, String> {
     let scripts: Vec<Vec<Step>> = case["scripts"].as_str().unwrap_or("").split('|').map(parse_script).collect();
     let libpoints = case["libpoints"].as_bool().unwrap_or(false);
     let shared = case["shared"].as_bool().unwrap_or(false);
+    let stale = case["stale"].as_bool().unwrap_or(false);
+    if case["kind"].as_str() == Some("crowd") {
+        let n = case["n"].as_u64().unwrap_or(0) as usize;
+        return crowd(n, &expected_messages()).map(|_| format!("the description survived {} other threads failing and exiting", n));
+    }
     let schedule: Vec<usize> = case["schedule"].as_array().map(|a| a.iter().map(|x| x.as_u64().unwrap_or(0) as usize).collect()).unwrap_or_default();
     let exp = expected_messages();
     let mut results = vec![];
     for round in 0..2 {
-        let (x, obs) = execute(&scripts, libpoints, shared, &schedule);
+        let (x, obs) = execute(&scripts, libpoints, shared, stale, &schedule);
         if round == 0 {
             for o in &obs {
                 println!("  t{} step {}: {}", o.thread, o.step, o.text);
